@@ -594,7 +594,8 @@ func (e *c06Env) take(sorted bool) string {
 		}
 	}
 	if sorted {
-		sort.Strings(out)
+		// frames of one stream keep their order; the order between streams is not compared
+		sort.SliceStable(out, func(i, j int) bool { return c06StreamOf(out[i]) < c06StreamOf(out[j]) })
 	}
 	s := "-"
 	if len(out) > 0 {
@@ -607,6 +608,21 @@ func (e *c06Env) take(sorted bool) string {
 		s += ",T"
 	}
 	return s
+}
+
+// c06StreamOf extracts the stream id of a rendered frame (0 for connection-level frames).
+func c06StreamOf(f string) int {
+	if f == "" || f[0] == 'S' || f[0] == 'A' || f[0] == 'G' {
+		return 0
+	}
+	n := 0
+	for _, c := range f[1:] {
+		if c < '0' || c > '9' {
+			break
+		}
+		n = n*10 + int(c-'0')
+	}
+	return n
 }
 
 // ---- caller operations
